@@ -176,7 +176,7 @@ func (w *worker) runTCP(c *Case, kind string) {
 		seq := 0
 		fmt.Sscan(r.Header.Get("X-Seq"), &seq)
 		resps = append(resps, cresp{vtrace.Rec{"kind": kindS, "status": r.StatusCode, "close": r.Close, "keepalive": strings.Contains(strings.ToLower(strings.Join(r.Header.Values("Connection"), ",")), "keep-alive"), "seq": seq,
-			"bodyLen": len(body), "cl": r.ContentLength, "chunked": len(r.TransferEncoding) > 0, "proto": r.Proto, "body": shortBody(body),
+			"bodyLen": len(body), "cl": r.ContentLength, "ncl": len(r.Header.Values("Content-Length")), "chunked": len(r.TransferEncoding) > 0, "proto": r.Proto, "body": shortBody(body),
 			"hdrs": []NV{}, "runs": [][]int{}}, interim})
 		if r.Close {
 			break
